@@ -452,7 +452,7 @@ def matrix_cells(thorough):
     return cells
 
 
-def make_generator(kind, rng, tmpdir, ice, light=False):
+def make_generator(kind, rng, tmpdir, ice, light=False, ant_pos=()):
     """tiny generators; returns (generator, description)"""
     from pyrex.particle import Particle, Event
     from pyrex.generation import ListGenerator, CylindricalGenerator, RectangularGenerator, FileGenerator
@@ -472,9 +472,15 @@ def make_generator(kind, rng, tmpdir, ice, light=False):
         for _ in range(1 if light else rng.choice([1, 1, 2])):
             d = np.array([rng.uniform(-1, 1), rng.uniform(-1, 1), rng.uniform(-1, 1)])
             vertex = [rng.uniform(-250, 250), rng.uniform(-250, 250), rng.uniform(-550, -60)]
-            if rng.random() < 0.25:
+            r = rng.random()
+            if r < 0.2:
                 # far and shallow: in the shadow zone of the depth-dependent ice models
                 vertex = [rng.uniform(1500, 3000), rng.uniform(-100, 100), -rng.uniform(5, 40)]
+            elif r < 0.5 and ant_pos:
+                # exactly below / above an antenna (same x, y): a vertex on the axis of a string
+                ax, ay, az = rng.choice(list(ant_pos))
+                vz = az + rng.choice([-1, 1]) * rng.uniform(20, 250)
+                vertex = [ax, ay, vz if vz < -10 else az - rng.uniform(20, 250)]
             energy = 10 ** rng.uniform(7, 9)
             generator_weights = rng.random() < 0.5
             if generator_weights and rng.random() < 0.5:
@@ -506,6 +512,75 @@ def make_generator(kind, rng, tmpdir, ice, light=False):
     return FileGenerator(fn), {"np_seed": seed, "file": True}
 
 
+
+# ------------------------------------------------------------------ independent ray-count oracles
+_GL = np.polynomial.legendre.leggauss(48)
+
+
+def _r_segment(ice, beta, za, zb):
+    """horizontal distance of rays with Snell invariants beta = n(z) sin(theta) (array) between depths za
+    and zb >= za (array), by Gauss-Legendre quadrature after z = zb - u^2 (removes the turning-point
+    singularity at zb)"""
+    umax = np.sqrt(np.maximum(zb - za, 0.0))[:, None]
+    u = 0.5 * umax * (_GL[0][None, :] + 1)
+    n = ice.index(zb[:, None] - u * u)
+    b = beta[:, None]
+    val = 2 * u * b / np.sqrt(np.maximum(n * n - b * b, 1e-300))
+    return 0.5 * umax[:, 0] * np.sum(_GL[1][None, :] * val, axis=1)
+
+
+def snell_count(ice, p0, p1):
+    """Number of rays between two points in ice whose index decreases monotonically towards the surface
+    (AntarcticIce-like), counted independently of pyrex's ray tracers: direct ray + rays that turn over /
+    reflect off the surface, as roots of r(beta) = rho found by a scan over the Snell invariant.  Returns
+    None when rho is within 3% of the shadow boundary (no verdict)."""
+    z0, z1 = sorted([float(p0[2]), float(p1[2])])
+    if not (z0 < 0 and z1 < 0):
+        return None
+    rho = float(np.hypot(p1[0] - p0[0], p1[1] - p0[1]))
+    if rho == 0:
+        return 2            # vertical: straight up/down, and up to the surface and back
+    n1 = float(ice.index(z1))
+    nsurf = float(ice.index(-1e-9))
+    betas = n1 * (1 - np.logspace(-9, 0, 500))[:-1]     # dense towards beta -> n(z1)
+    # turning depth n(zt) = beta by bisection on the ice model (surface when the ray reaches it)
+    lo = np.full(betas.shape, z1)
+    hi = np.zeros(betas.shape)
+    for _ in range(60):
+        mid = 0.5 * (lo + hi)
+        up = ice.index(mid) > betas
+        lo = np.where(up, mid, lo)
+        hi = np.where(up, hi, mid)
+    zt = np.where(betas > nsurf, lo, 0.0)
+    r = _r_segment(ice, betas, np.full(betas.shape, z0), zt) + _r_segment(ice, betas, np.full(betas.shape, z1), zt)
+    peak = float(np.max(r))
+    if rho < 0.97 * peak:
+        return 2
+    if rho > 1.03 * peak:
+        return 0
+    return None
+
+
+def layered_count(ice, p0, p1):
+    """Number of distinct rays with at most one reflection between two points of a two-layer stack of
+    uniform ice (interface at zb, surface at 0, nothing reflecting below): every topology (sequence of
+    straight segments) has exactly one Snell solution for rho > 0, so the rays are counted by
+    enumerating topologies; a reflection at the interface right at an endpoint is the direct ray."""
+    zb = float(ice.layers[0].valid_range[0])
+    z0, z1 = float(p0[2]), float(p1[2])
+    rho = float(np.hypot(p1[0] - p0[0], p1[1] - p0[1]))
+    if rho == 0 or not (z0 < 0 and z1 < 0) or len(ice.layers) != 2:
+        return None
+    on0, on1 = z0 == zb, z1 == zb
+    if on0 and on1:
+        return None
+    if on0 or on1:
+        return 2                      # direct + reflected off the surface
+    if (z0 < zb) != (z1 < zb):
+        return 2                      # direct (transmitted) + reflected off the surface
+    return 3                          # direct, reflected off the interface, reflected off the surface
+
+
 def run_cell(cell, seed, tmpdir, case=None):
     """Run one cell of the real component matrix (two events) with its own PRNG; returns
     (stats, failure-or-None) where failure = (what, description)."""
@@ -526,7 +601,11 @@ def run_cell(cell, seed, tmpdir, case=None):
         # tracer drags the whole path/tracer object graph along (seconds per received pulse):
         # the layered cells are kept to one single-particle event on two antennas
         light = tn == "Layered"
-        gen0, gd = make_generator(gk, rng, tmpdir, ice, light)
+        ant_pos = [(0, 0, -150), (40, 10, -60), (-30, 5, -300)][:2 if light else 3]
+        if tn == "Layered" and rng.random() < 0.6:
+            # an antenna exactly on the boundary between the two layers
+            ant_pos[1] = (40, 10, float(ice.layers[0].valid_range[0]))
+        gen0, gd = make_generator(gk, rng, tmpdir, ice, light, ant_pos)
 
         class GenWrap:
             """remembers the last event so that a component failure can be reproduced outside the kernel"""
@@ -537,8 +616,7 @@ def run_cell(cell, seed, tmpdir, case=None):
                 self.last = gen0.create_event()
                 return self.last
         gen = GenWrap()
-        ants = [Antenna(position=(0, 0, -150), noisy=False), Antenna(position=(40, 10, -60), noisy=False),
-                Antenna(position=(-30, 5, -300), noisy=False)][:2 if light else 3]
+        ants = [Antenna(position=pp, noisy=False) for pp in ant_pos]
         cont = ants
         if rng.random() < 0.5:
             # the antennas object is a real (combined, nested) Detector instead of a list
@@ -610,10 +688,38 @@ def run_cell(cell, seed, tmpdir, case=None):
                 exp = []
                 for p in passing:
                     rt = tr(p.vertex, a.position, ice_model=ice)
+                    sols = list(rt.solutions) if rt.exists else []
                     if rt.exists:
-                        exp += [(p, s) for s in rt.solutions]
+                        exp += [(p, s) for s in sols]
                     else:
                         stats["no_path"] += 1
+                    # the ray solutions themselves, judged independently of the tracer's bookkeeping
+                    geo = "vertex %s -> antenna %s" % ([float(x) for x in p.vertex], [float(x) for x in a.position])
+                    if bool(rt.exists) != bool(sols):
+                        bad = "%s: tracer.exists is %s but it lists %d solutions" % (geo, rt.exists, len(sols))
+                    for j1 in range(len(sols)):
+                        for j2 in range(j1 + 1, len(sols)):
+                            if (abs(sols[j1].tof - sols[j2].tof) <= 1e-9 * abs(sols[j1].tof) and
+                                    np.allclose(sols[j1].emitted_direction, sols[j2].emitted_direction, rtol=0, atol=1e-9) and
+                                    np.allclose(sols[j1].received_direction, sols[j2].received_direction, rtol=0, atol=1e-9)):
+                                bad = "%s: the same ray (tof %r, same directions) is listed twice among %d solutions" % (geo, sols[j1].tof, len(sols))
+                    want = None
+                    if tn in ("Specialized", "Basic"):
+                        if len(sols) not in (0, 2):
+                            bad = "%s: %d ray solutions (the depth-dependent tracers have none or two)" % (geo, len(sols))
+                        want = snell_count(ice, p.vertex, a.position)
+                    elif tn == "Layered":
+                        want = layered_count(ice, p.vertex, a.position)
+                    if want is not None:
+                        stats["count_oracle"] = stats.get("count_oracle", 0) + 1
+                        if np.hypot(*(np.array(p.vertex[:2], dtype=float) - a.position[:2])) == 0:
+                            stats["vertical"] = stats.get("vertical", 0) + 1
+                        if want != len(sols) and not bad:
+                            bad = "%s: the tracer lists %d ray solutions, the independent Snell count is %d" % (geo, len(sols), want)
+                    if bad:
+                        break
+                if bad:
+                    break
                 if not (len(new) == len(paths) == len(pols) == len(exp)):
                     bad = "antenna %d: %d signals, %d ray paths, %d polarizations, %d ray solutions" % (i, len(new), len(paths), len(pols), len(exp))
                     break
